@@ -138,14 +138,14 @@ func cmdCheck(args []string) (code int) {
 		for _, f := range p.SrcFuncs() {
 			c.SawFn(FuncName(f))
 		}
-		cf.run(c)
+		runGuarded(c, cf.run)
 		mergeCtx(rr, c)
 		if i == 0 && spec.Arch386 != nil {
 			// integer-width sensitive rules once more with int/uint = 32 bits (the
 			// type-checked program is the same; only the width model of the prover changes)
 			c32 := NewCtx(p, spec.ID, o.tier, "int/uint modelled as 32 bits (GOARCH=386/arm)")
 			c32.Arch32 = true
-			spec.Arch386(c32)
+			runGuarded(c32, spec.Arch386)
 			mergeCtx(rr, c32)
 		}
 	}
@@ -171,4 +171,19 @@ func cmdExplain(args []string) int {
 	id, _ := v["property_id"].(string)
 	rc := cmdCheck(append([]string{id}, args[1:]...))
 	return rc
+}
+
+// runGuarded runs a property's rules; an anchor that no longer resolves stops the remaining rules of that
+// configuration, but what was established before it is kept: a violation already found is still reported.
+func runGuarded(c *Ctx, run func(*Ctx)) {
+	defer func() {
+		if r := recover(); r != nil {
+			if ae, ok := r.(anchorError); ok {
+				c.Undecided("%s", ae.msg)
+				return
+			}
+			panic(r)
+		}
+	}()
+	run(c)
 }
